@@ -50,6 +50,16 @@ Fixpoint pat_from (k : nat) (v : N) : list byte :=
   match k with O => [] | S k => b8 v :: pat_from k ((v + 7) mod 256) end.
 Definition pat (seed n : N) : list byte := pat_from (N.to_nat n) (seed mod 256).
 
+(** Adler-32 over the bytes, with conditional subtraction instead of [mod] *)
+Definition ck_step (st : N * N) (x : byte) : N * N :=
+  let a := fst st + Byte.to_N x in
+  let a := if 65521 <=? a then a - 65521 else a in
+  let b := snd st + a in
+  let b := if 65521 <=? b then b - 65521 else b in
+  (a, b).
+Definition cksum (l : list byte) : N :=
+  let r := fold_left ck_step l (1, 0) in snd r * 65536 + fst r.
+
 Definition opt_eqb {A} (eqb : A -> A -> bool) (a b : option A) : bool :=
   match a, b with Some x, Some y => eqb x y | None, None => true | _, _ => false end.
 Fixpoint list_eqb {A} (eqb : A -> A -> bool) (a b : list A) : bool :=
